@@ -559,6 +559,29 @@ def diff(a, b, path=''):
     return None
 
 
+def diff_all(a, b, path='', out=None):
+    """All leaf differences (list of strings); lists of unequal length are one difference."""
+    if out is None:
+        out = []
+    if type(a) != type(b):
+        out.append('%s: expected %r, observed %r' % (path, a, b))
+    elif isinstance(a, dict):
+        for k in sorted(set(a) | set(b)):
+            if k not in a or k not in b:
+                out.append('%s.%s: expected %r, observed %r' % (path, k, a.get(k, '<absent>'), b.get(k, '<absent>')))
+            else:
+                diff_all(a[k], b[k], path + '.' + k, out)
+    elif isinstance(a, list):
+        if len(a) != len(b):
+            out.append('%s: expected %d items, observed %d: %r vs %r' % (path, len(a), len(b), _brief(a), _brief(b)))
+        else:
+            for i, (x, y) in enumerate(zip(a, b)):
+                diff_all(x, y, '%s[%d]' % (path, i), out)
+    elif a != b:
+        out.append('%s: expected %r, observed %r' % (path, a, b))
+    return out
+
+
 def _brief(lst):
     return [x.get('n', x.get('q', x.get('k'))) if isinstance(x, dict) else x for x in lst]
 
